@@ -342,16 +342,29 @@ def run(ctx):
                       "the 'base found' state (%s) starts afresh for every ruleset of the drop-in" % fv,
                       "the 'base found' state (%s) lives across the iterations over the drop-in's rulesets and is not reset: a ruleset whose target does not "
                       "exist inherits the base found for the previous one, so a file naming an unknown ruleset is accepted and merged onto the wrong base" % fv)
+    # the search spelled std::find_if over root.rulesets: the iterator IS the 'base found' state, and it is per ruleset when the search
+    # is made inside the walk over the drop-in's rulesets
+    sws = [w for w in search_walks(cd) if w["dir"] == "forward" and w["container"].endswith("root.rulesets")]
+    if fv is None and len(sws) == 1 and len(outer_l) == 1:
+        sw = sws[0]
+        fv = sw["var"]
+        lam_ = P.fns.get(sw["pred"]) if sw.get("pred") else None
+        byname = lam_ is not None and any(".name" in ret_text(lam_, r_) and "==" in ret_text(lam_, r_) for r_ in returns(lam_))
+        ctx.check(outer_l[0]["stmt"] in list(cd.ancestors(sw["call"])) and byname, "dropin:target-lookup-is-per-ruleset", "scope / per-iteration reset", cd.loc(sw["call"]),
+                  "the base is searched by name (std::find_if) afresh for every ruleset of the drop-in",
+                  "the search for the base is not made per ruleset of the drop-in, or not by name")
     if fv is None:
         ctx.broken("dropin:target-lookup-is-per-ruleset", "anchor", cd.loc(), "cannot identify the 'base found' state of the target search in compileDropIn")
         fv = "?"
     fc = Flow(P, cd, cg=ctx.cg, edge_tokens=lambda k, p: ["merge-refused"] if ("mergeWithDropIn(" in k and p is False) else (
         ["compile-failed"] if (k in ("target", "compiled_drop", "compiled_prekill_hook_plugin") and p is False) else (
-            ["no-target"] if (k in (fv, "(%s != nullptr)" % fv, "(nullptr != %s)" % fv) and p is False) or (k in ("(%s == nullptr)" % fv, "(nullptr == %s)" % fv) and p is True) else None)))
+            ["no-target"] if (k in (fv, "(%s != nullptr)" % fv, "(nullptr != %s)" % fv) and p is False) or (k in ("(%s == nullptr)" % fv, "(nullptr == %s)" % fv) and p is True)
+            or (re.match(r"^\((%s == .*\.c?end\(\)|.*\.c?end\(\) == %s)\)$" % (re.escape(fv), re.escape(fv)), k) is not None and p is True) else None)))
     cr = cd.calls("compileRuleset")
     tg = [i for i in cr if cd.text(cd.nodes[i]["args"][1]) == "false"]
     dr = [i for i in cr if cd.text(cd.nodes[i]["args"][1]) == "true"]
-    ctx.check(len(tg) == 1 and Xc(cd.nodes[tg[0]]["args"][0]) in ("elem(param:root.rulesets)", "*var:%s" % fv, "*%s" % fv), "dropin:target-is-fresh-base-copy", "provenance",
+    ctx.check(len(tg) == 1 and (Xc(cd.nodes[tg[0]]["args"][0]) in ("elem(param:root.rulesets)", "*var:%s" % fv, "*%s" % fv) or
+                                Xc(cd.nodes[tg[0]]["args"][0]).startswith("*std::find_if(param:root.rulesets.begin(), param:root.rulesets.end(), ")), "dropin:target-is-fresh-base-copy", "provenance",
               cd.loc(tg[0]) if tg else cd.loc(), "the target is a fresh compile of the base ruleset's IR", "target is not compileRuleset(base IR, false)")
     ctx.check(len(dr) == 1 and Xc(cd.nodes[dr[0]]["args"][0]) == "elem(param:dropin.rulesets)", "dropin:compiled-from-dropin-ir", "provenance",
               cd.loc(dr[0]) if dr else cd.loc(), "the override is compiled from the drop-in IR", "override is not compiled from the drop-in IR")
